@@ -31,6 +31,16 @@ class EnumVal:
         return int(self.value)
 
 
+class StructVal:
+    """value of struct.Struct(<constant format>)"""
+
+    def __init__(self, fmt):
+        self.fmt = fmt
+
+    def __repr__(self):
+        return f"struct.Struct({self.fmt!r})"
+
+
 class RegexVal:
     """value of re.compile(pattern, flags) with both folded"""
 
@@ -358,7 +368,8 @@ class Folder:
                     fn = r[1]
                     body = [s for s in fn.body if not (isinstance(s, ast.Expr) and isinstance(s.value, ast.Constant))]
                     straight = body and isinstance(body[-1], ast.Return) and body[-1].value is not None and all(
-                        isinstance(s, ast.Assign) and len(s.targets) == 1 and isinstance(s.targets[0], ast.Name) for s in body[:-1])
+                        isinstance(s, ast.Assign) and len(s.targets) == 1 and (isinstance(s.targets[0], ast.Name) or (
+                            isinstance(s.targets[0], (ast.Tuple, ast.List)) and all(isinstance(e_, ast.Name) for e_ in s.targets[0].elts))) for s in body[:-1])
                     if straight and not fn.args.kwonlyargs and not fn.args.kwarg and not fn.decorator_list:
                         params = [a.arg for a in fn.args.args]
                         vals = [ev(a) for a in node.args]
@@ -380,7 +391,15 @@ class Folder:
                         if any(p not in l2 for p in params):
                             raise NotConst("missing argument")
                         for s_ in body[:-1]:
-                            l2[s_.targets[0].id] = self.ev(s_.value, r[2], depth + 1, l2)
+                            v_ = self.ev(s_.value, r[2], depth + 1, l2)
+                            if isinstance(s_.targets[0], ast.Name):
+                                l2[s_.targets[0].id] = v_
+                            else:
+                                # (a, b) = <sequence of as many values>
+                                if not isinstance(v_, (tuple, list)) or len(v_) != len(s_.targets[0].elts):
+                                    raise NotConst("unpacking")
+                                for e_, x_ in zip(s_.targets[0].elts, v_):
+                                    l2[e_.id] = x_
                         return self.ev(body[-1].value, r[2], depth + 1, l2)
             raise NotConst("call " + n)
         if isinstance(f, ast.Attribute):
@@ -394,6 +413,22 @@ class Folder:
                 if not isinstance(pat, (str, bytes)) or not isinstance(flags, int):
                     raise NotConst("re.compile arguments")
                 return RegexVal(pat, flags)
+            if f.attr == "Struct" and isinstance(f.value, ast.Name) and f.value.id == "struct" and len(node.args) == 1 and not kw:
+                r_ = self.prog.resolve(mod, "struct")
+                fmt_ = ev(node.args[0])
+                if r_ is not None and r_[0] == "ext" and isinstance(fmt_, (str, bytes)):
+                    return StructVal(fmt_)
+            if f.attr in ("unpack", "pack", "unpack_from") and not kw:
+                try:
+                    sv_ = ev(f.value)
+                except NotConst:
+                    sv_ = None
+                if isinstance(sv_, StructVal):
+                    import struct as _struct
+                    try:
+                        return getattr(_struct.Struct(sv_.fmt), f.attr)(*[ev(a) for a in node.args])
+                    except Exception as e:
+                        raise NotConst(f"Struct.{f.attr}: {e}")
             if f.attr in ("unpack", "pack", "calcsize") and isinstance(f.value, ast.Name) and f.value.id == "struct" and not kw:
                 # struct.unpack(<const format>, <const bytes>): a pure function of its arguments
                 r_ = self.prog.resolve(mod, "struct")
